@@ -33,6 +33,11 @@ CLAIM = dict(
     note="OpenCV's INTER_AREA kernel is a contract (box mean when shrinking, replication for integer enlargement), tied by "
     "exact comparison for power-of-two factors and 1e-6 relative otherwise (OpenCV computes area weights in float32); "
     "numpy float64 arithmetic is exact on the dyadic stream.",
+    limits="normalize: the model + theorem are tied through the oracle only (the driver's `norm` request is not sent; darsia.weight's "
+    "ndarray-ratio branch is not modelled); resolution independence of ARRAY volumes has theorems for pure coarsening and pure refinement in any "
+    "dimension, the mixed case (one axis coarsened, the other refined) is covered by tie + oracle only; non-integer factors (effVol_total, "
+    "integrate_fresh_eq_spec hold for them in the model) are not tied; data with another number of axes than the geometry are outside the model "
+    "(Err.other): the code broadcasts there.",
     technique="Lean 4 proof (induction over histories with a cache invariant, telescoping/box-sum algebra) + differential correspondence + property oracle",
 )
 
